@@ -390,11 +390,9 @@ def c10(res, rng, tier, replay=None):
 def c10_class(it):
     if it.cls.get('stable') == '0':
         return 'unstable_tree_position'
-    if it.cls.get('rft') == '1':
-        return 'rooted_first_tree'
     if it.cls.get('closedvar') == '1':
         return 'closed_variant_finalize'
-    return None
+    return None      # a rooted first tree wildcard (C01) does not by itself explain a depth outside the reported variance
 
 
 # ---- C11 text -------------------------------------------------------------------------------------------------------
@@ -624,8 +622,8 @@ def c09(res, rng, tier, replay=None):
     g = G.ExprGen(rng, wild=0.03, maxdepth=2)
     tails = ['<<*/*/%B>%B>*', '<<*/*/%B>>*', '<<*/%B>%B>*', '<<*/*/*/%B>:1,>*', '<*/%B>*', '<*/%B>', '<*/%B>**', '<**/%B>*', '<*/*/%B>*', '<</*%B>%B>', '**/<*%B>', '<*%B>/**', '/**', '**', '**/*', '**/{%s}', '**/<%s:1,2>', '/**/<%s:>', '{%s,**/%s}', '<*/>', '**/*/', '{a/**,%s/**}', '<%s/**:1,>',
              '**/%s/**', '{**/%s,b/**}', '<%s/:1,>**', '**/{%s,%s/**}', '{%s/**,**}',
-             # a bounded branch at the front of the body of an unbounded repetition (repaired by 8aceb3d), and its unbounded relatives
-             '<{%s}/:1,>*', '<<%s:1>/:1,>*', '*<<?*:2>/*:1,>', '<{%s}/*:1,>', '<<?>/:1,>*', '<<%s>/>*', '<<?:1,3>/>*', '<{%s,*}/:1,>*', '<{*}/%B>*', '<{%s}/%B>*', '<<??>/>*', '<<?*>/>*', '<<?*?>/>*', '/**/<?/?:>', '<<?>/>', '<<*?>/%B>*', '<<{?,??}>/>*']
+             # a bounded branch at the front of the body of an unbounded repetition (repaired by 6c17bd8), and its unbounded relatives
+             '<{%s}/:1,>*', '<<%s:1>/:1,>*', '*<<?*:2>/*:1,>', '<{%s}/*:1,>', '<<?>/:1,>*', '<<%s>/>*', '<<?:1,3>/>*', '<{%s,*}/:1,>*', '<{*}/%B>*', '<{%s}/%B>*', '<<??>/>*', '<<?*>/>*', '<<?*?>/>*', '/**/<?/?:>', '<<?>/>', '<<*?>/%B>*', '<<{?,??}>/>*', '**/<?:2,>', '**/<?:1,>', '**/<?>', '**/<?%B>', '<<?:2,>/>*', '**/<?*:2,>', '**/<*:2,>']
     while len(exprs) < n:
         t = rng.choice(tails)
         while '%B' in t:
